@@ -9,6 +9,7 @@ package busprog
 import (
 	"context"
 	"fmt"
+	"runtime"
 	"sort"
 	"strings"
 
@@ -47,6 +48,10 @@ type Op struct {
 	// Panic (Pub): every handler that receives this event panics (after it was counted as a
 	// delivery); the bus recovers the panic, nothing else changes
 	Panic bool
+	// Goexit (Pub): every handler that receives this event ends its goroutine with
+	// runtime.Goexit (what t.FailNow does) after it was counted as a delivery. Only in
+	// programs whose handlers for the type are all asynchronous.
+	Goexit bool
 }
 
 func (o Op) String() string {
@@ -77,6 +82,9 @@ func (o Op) String() string {
 		}
 		if o.Panic {
 			s += ",handlers-panic"
+		}
+		if o.Goexit {
+			s += ",handlers-goexit"
 		}
 	}
 	return s + ")"
@@ -218,9 +226,13 @@ func (in *Inst) Body() {
 	in.ops = in.P.flat()
 	in.res = make([]int, len(in.ops))
 	panics := map[int]bool{}
+	goexits := map[int]bool{}
 	for id, o := range in.ops {
 		if o.Panic {
 			panics[evID(id, o.Odd)] = true
+		}
+		if o.Goexit {
+			goexits[evID(id, o.Odd)] = true
 		}
 	}
 	in.raceCtx, in.raceCancel = context.WithCancel(context.Background())
@@ -233,6 +245,9 @@ func (in *Inst) Body() {
 		}
 		if panics[id] {
 			panic("handler panics on this event")
+		}
+		if goexits[id] {
+			runtime.Goexit()
 		}
 	}
 	evt.FilterHook = nil
